@@ -23,7 +23,7 @@ def run_stage(ctx, prefixes, packages=PKGS, timeout=3000):
         json.dump({"Replace": {target: os.path.join(vlib.HARNESS, "overlay", "fixtrace.go.txt")}}, f)
     env = vlib.go_env()
     env["VERIF_TRACE_DIR"] = tdir
-    p = subprocess.run(["go", "test", "-tags", "verif", "-overlay", overlay, "-count=1", "-vet=off", packages], cwd=vlib.REPO, env=env,
+    p = subprocess.run(["go", "test", "-trimpath", "-tags", "verif", "-overlay", overlay, "-count=1", "-vet=off", packages], cwd=vlib.REPO, env=env,
                        stdout=subprocess.PIPE, stderr=subprocess.STDOUT, text=True, timeout=timeout)
     failed_pkgs = [l for l in p.stdout.splitlines() if l.startswith("FAIL") or l.startswith("--- FAIL")]
     if "build failed" in p.stdout or "[setup failed]" in p.stdout:
